@@ -19,6 +19,9 @@ mod signal;
 pub mod verif {
     pub use kanal_verif_rt as rt;
     pub use kanal_verif_rt::{core, std};
+    /// the internal lock, exported for the lock harness only
+    #[cfg(not(feature = "std-mutex"))]
+    pub use crate::mutex::{Mutex, RawMutexLock};
 }
 
 pub use error::*;
@@ -831,6 +834,8 @@ impl<T> Sender<T> {
                     }
                 }
                 // removing receive failed to wait for the signal response
+                #[cfg(kanal_verif)]
+                crate::verif::rt::probe(crate::verif::rt::probe::CANCEL_SEND_LOST);
                 if !sig.wait() {
                     // Safety: data failed to move, sender should drop it if it
                     // needs to
@@ -910,6 +915,8 @@ impl<T> Sender<T> {
                     }
                 }
                 // removing receive failed to wait for the signal response
+                #[cfg(kanal_verif)]
+                crate::verif::rt::probe(crate::verif::rt::probe::CANCEL_SEND_LOST);
                 if !sig.wait() {
                     *data = Some(d);
                     return Err(SendErrorTimeout::Closed);
@@ -1207,6 +1214,8 @@ impl<T> Receiver<T> {
                     }
                 }
                 // removing receive failed to wait for the signal response
+                #[cfg(kanal_verif)]
+                crate::verif::rt::probe(crate::verif::rt::probe::CANCEL_RECV_LOST);
                 if !sig.wait() {
                     return Err(ReceiveErrorTimeout::Closed);
                 }
